@@ -1,198 +1,72 @@
-//! C24: schemas and compiled queries can be shared across threads.
+//! C24, static part: schemas and compiled queries can be sent to and shared between threads.
 //!
-//! This crate only compiles if `Schema`, `IndexedQuery`, `IRQuery`, `Type`, `FieldValue` and `EdgeParameters`
-//! are `Send + Sync` (the workers below receive them by reference / `Arc` inside `std::thread::scope`).
-//! Dynamically, every thread's IR and rows must equal the sequential result.
+//! Nothing here is executed for its result; the crate is the obligation: it compiles only while the
+//! types below are `Send + Sync`, and `share()` only while references to them and `Arc`s of them may
+//! cross a `std::thread::scope` / `std::thread::spawn` boundary.
 
-use std::{
-    collections::BTreeMap,
-    sync::{Arc, Barrier, Mutex},
-};
+use std::{collections::BTreeMap, sync::Arc};
 
-use proptest::{
-    collection::vec,
-    prelude::any,
-    strategy::{Strategy, ValueTree},
-    test_runner::{Config, RngSeed, TestRunner},
-};
-use serde_json::json;
-use tfv::{
-    adapter::GraphAdapter,
-    checks::world::default_gen_config,
-    choice::Choices,
-    engine::{self, CompileOutcome, ExecOutcome},
-    runner::{write_replay, CheckCtx, Evidence, Stats, Tier, Timer},
-    worldcase::{decode_world_case, WorldCase},
-};
 use trustfall_core::{
-    ir::{EdgeParameters, FieldValue, IRQuery, IndexedQuery, Type},
-    schema::Schema,
+    frontend::{self, error::FrontendError},
+    interpreter::error::QueryArgumentsError,
+    ir::{EdgeParameters, FieldValue, IRQuery, IndexedQuery, TransparentValue, Type},
+    schema::{error::InvalidSchemaError, Schema},
 };
 
 fn assert_send_sync<T: Send + Sync>() {}
+fn assert_send_sync_static<T: Send + Sync + 'static>() {}
 
-#[allow(dead_code)]
 fn static_bounds() {
-    assert_send_sync::<Schema>();
-    assert_send_sync::<IndexedQuery>();
-    assert_send_sync::<Arc<IndexedQuery>>();
-    assert_send_sync::<IRQuery>();
-    assert_send_sync::<Type>();
-    assert_send_sync::<FieldValue>();
-    assert_send_sync::<EdgeParameters>();
+    assert_send_sync_static::<Schema>();
+    assert_send_sync_static::<Arc<Schema>>();
+    assert_send_sync_static::<IndexedQuery>();
+    assert_send_sync_static::<Arc<IndexedQuery>>();
+    assert_send_sync_static::<IRQuery>();
+    assert_send_sync_static::<Type>();
+    assert_send_sync_static::<FieldValue>();
+    assert_send_sync_static::<TransparentValue>();
+    assert_send_sync_static::<EdgeParameters>();
+    assert_send_sync_static::<Arc<BTreeMap<Arc<str>, FieldValue>>>();
+    assert_send_sync_static::<FrontendError>();
+    assert_send_sync_static::<InvalidSchemaError>();
+    assert_send_sync_static::<QueryArgumentsError>();
+    assert_send_sync::<&Schema>();
+    assert_send_sync::<&IndexedQuery>();
 }
 
-struct Job {
-    case: WorldCase,
-}
+const SDL: &str = r#"
+schema { query: RootSchemaQuery }
+directive @filter(op: String!, value: [String!]) repeatable on FIELD | INLINE_FRAGMENT
+directive @tag(name: String) on FIELD
+directive @output(name: String) on FIELD
+directive @optional on FIELD
+directive @recurse(depth: Int!) on FIELD
+directive @fold on FIELD
+directive @transform(op: String!) on FIELD
+type RootSchemaQuery { Thing: [Thing!]! }
+type Thing { name: String }
+"#;
 
-fn rows_of(case: &WorldCase, iq: Arc<IndexedQuery>) -> String {
-    match engine::execute(Arc::new(GraphAdapter::new(case.world.clone())), iq, engine::args_to_engine(&case.args), 5000) {
-        ExecOutcome::Rows(r) => format!("{r:?}"),
-        ExecOutcome::ArgError(e) => format!("argerr:{e}"),
-        ExecOutcome::Panic(p, n) => format!("panic:{} after {n}", p.message),
-    }
-}
-
-fn compile_text(schema: &Schema, text: &str) -> (String, Option<Arc<IndexedQuery>>) {
-    match engine::compile(schema, text) {
-        CompileOutcome::Ok(iq) => (ron::to_string(&iq.ir_query).unwrap_or_default(), Some(iq)),
-        CompileOutcome::Err(e) => (e, None),
-        CompileOutcome::Panic(p) => (format!("panic:{}", p.message), None),
-    }
+/// uses the values from other threads the way a parallel caller would
+fn share() -> usize {
+    let schema = Schema::parse(SDL).expect("schema");
+    let query = frontend::parse(&schema, "{ Thing { name @output } }").expect("query");
+    let mut n = 0;
+    std::thread::scope(|scope| {
+        let a = scope.spawn(|| frontend::parse(&schema, "{ Thing { name @output } }").is_ok() as usize);
+        let b = scope.spawn(|| query.ir_query.variables.len() + query.outputs.len());
+        n = a.join().unwrap() + b.join().unwrap();
+    });
+    let owned_schema = Arc::new(schema);
+    let moved_query = query.clone();
+    let h = std::thread::spawn(move || {
+        let again = frontend::parse(&owned_schema, "{ Thing { name @output } }").expect("query");
+        (again.ir_query == moved_query.ir_query) as usize
+    });
+    n + h.join().unwrap()
 }
 
 fn main() {
-    let args: Vec<String> = std::env::args().collect();
-    let tier = if args.get(1).map(|s| s == "thorough").unwrap_or(false) { Tier::Thorough } else { Tier::Quick };
-    let seed = std::env::var("VERIF_SEED").ok().and_then(|s| s.trim().parse::<i128>().ok()).map(|v| v as u64).unwrap_or(20260921);
-    let process_index: u64 = args.get(2).and_then(|s| s.parse().ok()).unwrap_or(0);
-    let batches: usize = args.get(3).and_then(|s| s.parse().ok()).unwrap_or(50);
-    let ctx = CheckCtx { property: "C24".into(), tier, seed, replay: None, threads: 16, scale: 1.0 };
-    engine::install_panic_hook();
-    let timer = Timer::start();
-    let cfg = default_gen_config();
-    let config = Config { rng_seed: RngSeed::Fixed(seed ^ (process_index.wrapping_mul(0x9E37))), failure_persistence: None, ..Config::default() };
-    let mut runner = TestRunner::new(config);
-    let strategy = vec(any::<u8>(), 64usize..=700);
-    let mut stats = Stats { want_samples: 3, ..Stats::default() };
-    let mut violation: Option<(String, Vec<u8>)> = None;
-
-    'batches: for _b in 0..batches {
-        // one shared schema per batch: the first job's schema; several queries against it
-        let seed_bytes = strategy.new_tree(&mut runner).expect("gen").current();
-        let first = decode_world_case(&mut Choices::new(&seed_bytes), &cfg);
-        let Ok(Ok(schema)) = engine::parse_schema(&first.sdl) else { continue };
-        // more queries over the same world: re-decode with different tails (same schema/data prefix is not guaranteed,
-        // so each job carries its own world but compiles against *its own* schema text re-parsed once per batch)
-        let mut jobs: Vec<Job> = vec![Job { case: first }];
-        for _ in 0..3 {
-            let b = strategy.new_tree(&mut runner).expect("gen").current();
-            jobs.push(Job { case: decode_world_case(&mut Choices::new(&b), &cfg) });
-        }
-        let schemas: Vec<Option<Schema>> = jobs
-            .iter()
-            .enumerate()
-            .map(|(i, j)| if i == 0 { Some(schema.clone()) } else { engine::parse_schema(&j.case.sdl).ok().and_then(|r| r.ok()) })
-            .collect();
-        // sequential reference
-        let mut expected: Vec<(String, String)> = vec![];
-        let mut compiled: Vec<Option<Arc<IndexedQuery>>> = vec![];
-        for (j, s) in jobs.iter().zip(schemas.iter()) {
-            match s {
-                None => {
-                    expected.push((String::new(), String::new()));
-                    compiled.push(None);
-                }
-                Some(s) => {
-                    let (ir, iq) = compile_text(s, &j.case.query_text);
-                    let rows = iq.as_ref().map(|iq| rows_of(&j.case, iq.clone())).unwrap_or_default();
-                    expected.push((ir, rows));
-                    compiled.push(iq);
-                }
-            }
-        }
-        stats.evaluations += 1;
-        let n_threads = 2 + (stats.evaluations as usize % 15);
-        let barrier = Barrier::new(n_threads);
-        let mismatches: Mutex<Vec<String>> = Mutex::new(vec![]);
-        let shared_exec = compiled.iter().filter(|c| c.is_some()).count();
-        std::thread::scope(|scope| {
-            for t in 0..n_threads {
-                let jobs = &jobs;
-                let schemas = &schemas;
-                let compiled = &compiled;
-                let expected = &expected;
-                let barrier = &barrier;
-                let mismatches = &mismatches;
-                scope.spawn(move || {
-                    barrier.wait();
-                    for round in 0..3 {
-                        for k in 0..jobs.len() {
-                            let idx = (k + t + round) % jobs.len();
-                            let Some(schema) = &schemas[idx] else { continue };
-                            match (t + round) % 3 {
-                                0 => {
-                                    // compile against the shared &Schema
-                                    let (ir, _) = compile_text(schema, &jobs[idx].case.query_text);
-                                    if ir != expected[idx].0 {
-                                        mismatches.lock().unwrap().push(format!("thread {t}: compile result of job {idx} differs from the sequential one"));
-                                    }
-                                }
-                                1 => {
-                                    // execute the shared Arc<IndexedQuery>
-                                    if let Some(iq) = &compiled[idx] {
-                                        let rows = rows_of(&jobs[idx].case, iq.clone());
-                                        if rows != expected[idx].1 {
-                                            mismatches.lock().unwrap().push(format!("thread {t}: rows of job {idx} differ from the sequential ones"));
-                                        }
-                                    }
-                                }
-                                _ => {
-                                    let (ir, iq) = compile_text(schema, &jobs[idx].case.query_text);
-                                    let rows = iq.map(|iq| rows_of(&jobs[idx].case, iq)).unwrap_or_default();
-                                    if ir != expected[idx].0 || rows != expected[idx].1 {
-                                        mismatches.lock().unwrap().push(format!("thread {t}: compile+execute of job {idx} differs from the sequential result"));
-                                    }
-                                }
-                            }
-                        }
-                    }
-                });
-            }
-        });
-        if shared_exec >= 1 && n_threads >= 2 {
-            let key = format!("{}{}", jobs[0].case.sdl, jobs[0].case.query_text);
-            if stats.nontrivial(key.as_bytes()) {
-                stats.sample(|| json!({"threads": n_threads, "jobs": jobs.iter().map(|j| j.case.query_text.clone()).collect::<Vec<_>>()}));
-            }
-        }
-        let ms = mismatches.into_inner().unwrap();
-        if let Some(m) = ms.first() {
-            violation = Some((m.clone(), seed_bytes));
-            break 'batches;
-        }
-    }
-    let mut violations = 0;
-    if let Some((msg, bytes)) = &violation {
-        violations = 1;
-        let path = write_replay("C24", "c24", bytes, "c24:concurrent-result-differs-from-sequential", msg, json!({"message": msg}));
-        eprintln!("violation: {msg}");
-        println!("VIOLATION property=C24 replay={}", path.display());
-    }
-    // each process writes its own partial evidence; the driver script merges them
-    let ev = Evidence {
-        property: format!("C24.part{process_index}"),
-        tier,
-        seed: ctx.seed,
-        rule: String::new(),
-        stats,
-        assumptions: vec![],
-        violations,
-        wall_s: timer.secs(),
-        exhaustive: None,
-        extra: BTreeMap::new(),
-    };
-    ev.write();
-    std::process::exit(if violations > 0 { 1 } else { 0 });
+    static_bounds();
+    println!("{}", share());
 }
